@@ -631,3 +631,46 @@ func init() {
 		Stubs:  append(append([]string{}, stubCrypto...), stubErrors...),
 	})
 }
+
+func init() {
+	register(&PropSpec{
+		ID:   "C10",
+		Pkgs: []string{"root"},
+		Items: func(tier string, seed int64) []Item {
+			var it []Item
+			for _, l := range pick(tier, rng(5, 24), rng(5, 40)) {
+				it = append(it, Item{PkgKey: "root", Func: "VerifC10_AliasDecode", Shape: []int{l}})
+			}
+			for _, l := range pick(tier, rng(0, 16), rng(0, 24)) {
+				it = append(it, Item{PkgKey: "root", Func: "VerifC10_ReuseFrame", Shape: []int{l}})
+			}
+			for mt := 0; mt < 4; mt++ {
+				for _, s := range dataShapes("quick", 64) {
+					it = append(it, Item{PkgKey: "root", Func: "VerifC10_AliasEncode", Shape: append([]int{mt}, s...)})
+					it = append(it, Item{PkgKey: "root", Func: "VerifC10_ReadOnly", Shape: append([]int{mt}, s...)})
+				}
+			}
+			for _, l := range rng(1, 5) {
+				it = append(it, Item{PkgKey: "root", Func: "VerifC10_AliasMAC", Shape: []int{l}})
+			}
+			for _, n := range pick(tier, []int{0, 1, 3, 15, 16, 17, 31, 32}, rng(0, 48)) {
+				for _, spare := range []int{0, 1, 15, 16, 20} {
+					it = append(it, Item{PkgKey: "root", Func: "VerifC10_GuardFRM", Shape: []int{n, spare}})
+					if n <= 15 {
+						it = append(it, Item{PkgKey: "root", Func: "VerifC10_GuardFOpts", Shape: []int{n, spare}})
+					}
+				}
+			}
+			for i := 0; i < nMacSpecs; i++ {
+				it = append(it, Item{PkgKey: "root", Func: "VerifC10_ReuseMAC", Shape: []int{i}})
+			}
+			it = append(it, Item{PkgKey: "root", Func: "VerifC10_ReuseCFList", Shape: []int{0}}, Item{PkgKey: "root", Func: "VerifC10_ReuseCFList", Shape: []int{1}})
+			for _, l := range rng(1, 3) {
+				it = append(it, Item{PkgKey: "root", Func: "VerifC10_Locks", Shape: []int{l}})
+			}
+			return it
+		},
+		Bounds: func(tier string) map[string]string { return map[string]string{} },
+		Stubs:  append(append([]string{"sync.RWMutex: lock-state counters (no scheduler: interleavings are not explored; lock discipline is checked on every access of the registry maps)"}, stubCrypto...), stubErrors...),
+	})
+}
